@@ -129,10 +129,42 @@ pub fn workload(rng: &mut Rng, flavor: Flavor, max_len: usize) -> Workload {
     let sw = swarm(rng, flavor, max_len);
     let mut wl = Workload::default();
     let mut target_len = sw.target_len;
+    // low-entropy text (1 run in 8): visible text drawn from one to three characters, so that the
+    // same text occurs again and again in one buffer (anything that finds its place in the
+    // caller's buffer by content, remembers "the last run" or compares records sees repeats)
+    let alphabet: Option<Vec<u8>> = if rng.chance(1, 8) {
+        let k = rng.range(1, 3);
+        Some((0..k).map(|_| *rng.pick(b"ab0m;[ x")).collect())
+    } else {
+        None
+    };
     while wl.bytes.len() < target_len && wl.toks.len() < 40_000 {
         let kind = ALL_KINDS[rng.weighted(&sw.weights)];
         let start = wl.bytes.len();
         token(rng, kind, flavor, &mut wl.bytes);
+        if let Some(a) = &alphabet {
+            match kind {
+                Kind::Ascii => {
+                    for b in &mut wl.bytes[start..] {
+                        *b = a[*b as usize % a.len()];
+                    }
+                }
+                Kind::Utf8x2 | Kind::Utf8x3 | Kind::Utf8x4 => {
+                    // one fixed character per width
+                    let n = std::str::from_utf8(&wl.bytes[start..]).map(|s| s.chars().count()).unwrap_or(1);
+                    wl.bytes.truncate(start);
+                    let c = match kind {
+                        Kind::Utf8x2 => '\u{e9}',
+                        Kind::Utf8x3 => '\u{20ac}',
+                        _ => '\u{1f600}',
+                    };
+                    for _ in 0..n {
+                        push_char(&mut wl.bytes, c);
+                    }
+                }
+                _ => {}
+            }
+        }
         let end = wl.bytes.len();
         if end > start {
             wl.toks.push(Tok { start, end, kind });
